@@ -437,4 +437,338 @@ Section Struct.
       destruct s; inversion H; subst; auto.
       split; [eapply set_good; eauto | apply set_field_fst].
   Qed.
+
+  (* ---- the hooks on the second reading ---- *)
+  Lemma legacy_absent h fs fv k : struct_wfb h fs = true -> map fst fv = fs -> In k (hook_names h) ->
+    assoc k (emit fv) = None.
+  Proof.
+    intros W Hfs Hk. destruct (struct_wfb_spec _ _ W) as (_ & D & _).
+    apply assoc_none. intros Hin.
+    apply (sublist_In _ _ _ (emit_keys_sublist fv)) in Hin. rewrite Hfs in Hin.
+    eapply NoDup_app_disj; [apply ndf_NoDup; exact D | exact Hin | exact Hk].
+  Qed.
+
+  Lemma sc_set v fv : supplier_country (set_field (bs "$regime") v fv) = supplier_country fv.
+  Proof. unfold supplier_country. rewrite get_set_other; [reflexivity | discriminate]. Qed.
+
+  Lemma sc_R a b : R a b -> supplier_country a = supplier_country b.
+  Proof.
+    intros HR. unfold supplier_country.
+    destruct (R_get (bs "supplier") a b HR) as [[-> ->]|(fd & v & w & -> & -> & _ & _ & [_ H])]; auto.
+    cbn [fst snd] in H. destruct H as [->|(_ & A & B)]; auto.
+    rewrite (empty_no_member _ _ _ A), (empty_no_member _ _ _ B). reflexivity.
+  Qed.
+
+  Definition invoice_settled (fv : list (field * tv)) : Prop :=
+    match get_field (bs "$regime") fv with
+    | Some (TStr []) => e_regime E (supplier_country fv) = None \/ e_regime E (supplier_country fv) = Some []
+    | _ => True
+    end.
+
+  Lemma invoice_fix m fv fv' : apply_hook E HInvoice m fv = Ok fv' -> invoice_settled fv'.
+  Proof.
+    cbn [apply_hook]. unfold invoice_settled.
+    destruct (get_field (bs "$regime") fv) as [x|] eqn:G.
+    2:{ intros H; inversion H; subst. now rewrite G. }
+    assert (Other : x <> TStr [] -> Ok fv = Ok fv' ->
+                    match get_field (bs "$regime") fv' with
+                    | Some (TStr []) => e_regime E (supplier_country fv') = None \/ e_regime E (supplier_country fv') = Some []
+                    | _ => True end).
+    { intros Hx H; inversion H; subst. rewrite G. destruct x as [| | |[|]| |]; auto. congruence. }
+    destruct x as [| | |s| |]; try (apply Other; discriminate).
+    destruct s as [|c s]; [|apply Other; discriminate].
+    destruct (e_regime E (supplier_country fv)) as [c|] eqn:Er.
+    - intros H; inversion H; subst. rewrite (get_set_same _ _ _ _ G), sc_set.
+      destruct c; auto.
+    - intros H; inversion H; subst. rewrite G. auto.
+  Qed.
+
+  Lemma invoice_second fs m fv fv2 : map fst fv = fs ->
+    (forall fd, In fd fs -> f_name fd = bs "$regime" -> f_ty fd = TyLeaf LStr) ->
+    invoice_settled fv -> R fv fv2 -> apply_hook E HInvoice m fv2 = Ok fv2.
+  Proof.
+    intros Hfs T S HR. cbn [apply_hook]. unfold invoice_settled in S.
+    rewrite <- (sc_R _ _ HR).
+    destruct (R_get (bs "$regime") fv fv2 HR) as [[A B]|(fd & v & w & A & B & Hin & Hn & [_ H])].
+    - rewrite B. reflexivity.
+    - rewrite B. rewrite A in S. cbn [fst snd] in H.
+      assert (Tfd : f_ty fd = TyLeaf LStr).
+      { apply T; auto. rewrite <- Hfs. apply (in_map fst) in Hin. exact Hin. }
+      assert (Hvw : v = w).
+      { destruct H as [?|(_ & X & Y)]; auto. rewrite Tfd in X, Y. cbn in X, Y.
+        destruct v as [| | |[|]| |]; try discriminate. destruct w as [| | |[|]| |]; try discriminate. reflexivity. }
+      subst w. destruct v as [| | |s| |]; auto. destruct s; auto.
+      destruct S as [->| ->]; auto. rewrite (set_get_id _ _ _ B). reflexivity.
+  Qed.
+
+  Lemma hook_second h fs m fv fv' fv2 : struct_wfb h fs = true -> map fst fv' = fs ->
+    apply_hook E h m fv = Ok fv' -> R fv' fv2 ->
+    apply_hook E h (emit fv') fv2 = Ok fv2.
+  Proof.
+    intros W Hfs H HR. pose proof (legacy_absent h fs fv' ) as L.
+    destruct h; cbn [apply_hook].
+    - reflexivity.
+    - apply (invoice_second fs (emit fv') fv' fv2 Hfs); auto.
+      + destruct (struct_wfb_spec _ _ W) as (_ & _ & T). intros fd Hi Hn. apply (T _ fd (or_introl eq_refl) Hi Hn).
+      + apply (invoice_fix m fv fv' H).
+    - rewrite L; auto. cbn; auto.
+    - unfold move_string. rewrite L; auto. cbn; auto.
+    - unfold move_string. rewrite L; auto; [|cbn; auto]. cbn [rbind]. rewrite L; auto. cbn; auto.
+    - rewrite L; auto. cbn; auto.
+  Qed.
+
+  (* the struct step on its own output *)
+  Lemma struct_reread f h fs fv : struct_wfb h fs = true -> map fst fv = fs ->
+    Forall (Good f) fv ->
+    (forall fv2, R fv fv2 -> apply_hook E h (emit fv) fv2 = Ok fv2) ->
+    struct_step E f h fs (emit fv) = Ok (TObj (emit fv)).
+  Proof.
+    intros W Hfs G Hk. destruct (struct_wfb_spec _ _ W) as (A & D & _).
+    unfold struct_step.
+    assert (Dn : names_distinct_fold (map f_name fs) = true).
+    { eapply sublist_ndf; [|exact D]. rewrite <- (app_nil_r (map f_name fs)) at 1.
+      apply sublist_app; [apply sublist_refl | apply sublist_nil]. }
+    assert (Sub : sublist (map fst (emit fv)) (map f_name fs)).
+    { rewrite <- Hfs. apply emit_keys_sublist. }
+    assert (M : members_in_domain (map f_name fs ++ hook_names h) (emit fv) = true).
+    { apply mid_spec. repeat split.
+      - eapply sublist_forallb; eauto.
+      - eapply sublist_ndf; eauto.
+      - apply names_exact_spec. intros a b Ha Hb F. eapply (ndf_spec _ D); auto.
+        apply in_or_app. left. eapply sublist_In; eauto. }
+    rewrite M. cbn [negb].
+    destruct (second_pass f fv) as (fv2 & R2 & HR); auto.
+    { rewrite Hfs. now apply ndf_NoDup. }
+    rewrite Hfs in R2. unfold second_read in R2. rewrite R2. cbn [rbind].
+    rewrite (Hk _ HR). cbn [rbind]. rewrite (R_emit _ _ HR). reflexivity.
+  Qed.
 End Struct.
+
+(* ------------------------------------------------------------------------------------------ *)
+(* maps: later duplicates win, keys sorted                                                     *)
+(* ------------------------------------------------------------------------------------------ *)
+Section KV.
+  Context {A : Type}.
+  Definition kvle (a b : bytes * A) : Prop := bytes_ltb (fst b) (fst a) = false.
+
+  Lemma insert_kv_perm (x : bytes * A) l : Permutation (insert_kv x l) (x :: l).
+  Proof.
+    induction l as [|y l IH]; cbn; auto.
+    destruct (bytes_ltb (fst y) (fst x)); auto.
+    eapply perm_trans; [apply perm_skip, IH | apply perm_swap].
+  Qed.
+
+  Lemma sort_kv_cons (x : bytes * A) l : sort_kv (x :: l) = insert_kv x (sort_kv l).
+  Proof. reflexivity. Qed.
+
+  Lemma sort_kv_perm (l : list (bytes * A)) : Permutation (sort_kv l) l.
+  Proof.
+    induction l; [constructor|]. rewrite sort_kv_cons. eapply perm_trans; [apply insert_kv_perm | auto].
+  Qed.
+
+  Lemma insert_kv_sorted (x : bytes * A) l : StronglySorted kvle l -> StronglySorted kvle (insert_kv x l).
+  Proof.
+    induction 1 as [|y l HS IH HF]; cbn.
+    - constructor; constructor.
+    - destruct (bytes_ltb (fst y) (fst x)) eqn:E.
+      + constructor; auto.
+        eapply Permutation_Forall; [symmetry; apply insert_kv_perm|].
+        constructor; auto. unfold kvle. now apply bytes_ltb_asym.
+      + constructor; [constructor; auto|].
+        constructor; auto.
+        eapply Forall_impl; [|exact HF]. intros z Hz. unfold kvle in *.
+        eapply bytes_le_trans; eauto.
+  Qed.
+
+  Lemma sort_kv_sorted (l : list (bytes * A)) : StronglySorted kvle (sort_kv l).
+  Proof. induction l; [constructor | rewrite sort_kv_cons; now apply insert_kv_sorted]. Qed.
+
+  Lemma sort_kv_of_sorted (l : list (bytes * A)) : StronglySorted kvle l -> sort_kv l = l.
+  Proof.
+    induction 1 as [|x l HS IH HF]; auto. rewrite sort_kv_cons, IH.
+    destruct l as [|y l]; cbn; auto.
+    inversion HF; subst. unfold kvle in H1. now rewrite H1.
+  Qed.
+
+  Lemma existsb_key k (r : list (bytes * A)) :
+    existsb (fun kv => eqb_bytes k (fst kv)) r = true <-> In k (map fst r).
+  Proof.
+    rewrite existsb_exists, in_map_iff. split.
+    - intros (kv & Hin & Ek). apply eqb_bytes_eq in Ek. eauto.
+    - intros (kv & Ek & Hin). exists kv. split; auto. apply eqb_bytes_eq. auto.
+  Qed.
+
+  Lemma dedup_last_In (m : list (bytes * A)) kv : In kv (dedup_last m) -> In kv m.
+  Proof.
+    induction m as [|[k v] m IH]; cbn; auto.
+    destruct (existsb _ m); cbn; intros; tauto.
+  Qed.
+
+  Lemma dedup_last_NoDup (m : list (bytes * A)) : NoDup (map fst (dedup_last m)).
+  Proof.
+    induction m as [|[k v] m IH]; cbn; [constructor|].
+    destruct (existsb (fun kv => eqb_bytes k (fst kv)) m) eqn:Ex; auto.
+    cbn. constructor; auto. intros Hin. apply in_map_iff in Hin. destruct Hin as (kv & Ek & Hin).
+    apply dedup_last_In in Hin.
+    assert (existsb (fun kv => eqb_bytes k (fst kv)) m = true).
+    { apply existsb_key. apply in_map_iff. eauto. }
+    congruence.
+  Qed.
+
+  Lemma dedup_last_id (m : list (bytes * A)) : NoDup (map fst m) -> dedup_last m = m.
+  Proof.
+    induction m as [|[k v] m IH]; cbn; auto. intros N. inversion N; subst.
+    destruct (existsb (fun kv => eqb_bytes k (fst kv)) m) eqn:Ex.
+    - apply existsb_key in Ex. contradiction.
+    - now rewrite IH.
+  Qed.
+
+  Lemma sorted_strict (l : list (bytes * A)) : StronglySorted kvle l -> NoDup (map fst l) ->
+    StronglySorted (fun a b => bytes_ltb a b = true) (map fst l).
+  Proof.
+    induction 1 as [|x l HS IH HF]; cbn; intros N; [constructor|].
+    inversion N; subst. constructor; auto.
+    apply Forall_forall. intros k Hk. apply in_map_iff in Hk. destruct Hk as (kv & <- & Hin).
+    rewrite Forall_forall in HF. specialize (HF kv Hin). unfold kvle in HF.
+    destruct (bytes_ltb (fst x) (fst kv)) eqn:L; auto.
+    exfalso. apply H1. rewrite (bytes_ltb_total _ _ L HF). now apply in_map.
+  Qed.
+End KV.
+
+(* ------------------------------------------------------------------------------------------ *)
+(* a struct reads its members by name                                                          *)
+(* ------------------------------------------------------------------------------------------ *)
+Lemma rbind_ext {A B} (r : res A) (f g : A -> res B) : (forall a, f a = g a) -> rbind r f = rbind r g.
+Proof. intros H. destruct r; cbn; auto. Qed.
+
+Section ByName.
+  Variable E : env.
+
+  Lemma apply_hook_ext h m m' fv : (forall k, In k (hook_names h) -> assoc k m = assoc k m') ->
+    apply_hook E h m fv = apply_hook E h m' fv.
+  Proof.
+    intros H. destruct h; cbn [apply_hook]; auto.
+    - rewrite (H (bs "tags")) by (cbn; auto). reflexivity.
+    - unfold move_string. rewrite (H (bs "desc")) by (cbn; auto). reflexivity.
+    - unfold move_string. rewrite (H (bs "name")), (H (bs "addr")) by (cbn; auto). reflexivity.
+    - rewrite (H (bs "tags")) by (cbn; auto). reflexivity.
+  Qed.
+
+  Lemma struct_step_ext f h fs m m' :
+    members_in_domain (map f_name fs ++ hook_names h) m = members_in_domain (map f_name fs ++ hook_names h) m' ->
+    (members_in_domain (map f_name fs ++ hook_names h) m = true ->
+     forall k, In k (map f_name fs ++ hook_names h) -> assoc k m = assoc k m') ->
+    struct_step E f h fs m = struct_step E f h fs m'.
+  Proof.
+    intros H1 H2. unfold struct_step. rewrite <- H1.
+    destruct (members_in_domain (map f_name fs ++ hook_names h) m) eqn:M; [|reflexivity]. cbn [negb].
+    specialize (H2 eq_refl).
+    erewrite rmap_ext.
+    - apply rbind_ext. intros fv. rewrite (apply_hook_ext h m m'); auto.
+      intros k Hk. apply H2, in_or_app. auto.
+    - intros fd Hin. cbv beta. rewrite (H2 (f_name fd)); auto. apply in_or_app. left. now apply in_map.
+  Qed.
+
+  Lemma reenc_struct_ext fuel h fs m m' :
+    members_in_domain (map f_name fs ++ hook_names h) m = members_in_domain (map f_name fs ++ hook_names h) m' ->
+    (members_in_domain (map f_name fs ++ hook_names h) m = true ->
+     forall k, In k (map f_name fs ++ hook_names h) -> assoc k m = assoc k m') ->
+    reenc E fuel (TyStruct h fs) (TObj m) = reenc E fuel (TyStruct h fs) (TObj m').
+  Proof. intros. destruct fuel; auto. rewrite !reenc_eq. now apply struct_step_ext. Qed.
+
+  (* T2: members whose names are not (up to case) names the struct listens to are ignored *)
+  Theorem ignores_unknown_members fuel h fs m1 x m2 :
+    (forall kv n, In kv x -> In n (map f_name fs ++ hook_names h) -> fold_eq (fst kv) n = false) ->
+    members_in_domain (map f_name fs ++ hook_names h) (m1 ++ x ++ m2) = true ->
+    reenc E fuel (TyStruct h fs) (TObj (m1 ++ x ++ m2)) = reenc E fuel (TyStruct h fs) (TObj (m1 ++ m2)).
+  Proof.
+    intros U M. apply reenc_struct_ext.
+    - rewrite M. symmetry. eapply mid_sublist; [|exact M].
+      rewrite !map_app. apply sublist_app; [apply sublist_refl|].
+      rewrite <- (app_nil_l (map fst m2)) at 1. apply sublist_app; [apply sublist_nil | apply sublist_refl].
+    - intros _ k Hk. rewrite !assoc_app.
+      destruct (assoc k m1); auto.
+      rewrite assoc_none; auto. intros Hin. apply in_map_iff in Hin. destruct Hin as (kv & <- & Hin).
+      specialize (U kv (fst kv) Hin Hk). rewrite fold_eq_refl in U. discriminate.
+  Qed.
+
+  (* T3: the order of the members is irrelevant *)
+  Theorem struct_member_order_irrelevant fuel h fs m m2 : Permutation m m2 ->
+    reenc E fuel (TyStruct h fs) (TObj m2) = reenc E fuel (TyStruct h fs) (TObj m).
+  Proof.
+    intros P. symmetry. apply reenc_struct_ext.
+    - now apply mid_perm.
+    - intros M k _. apply assoc_perm; auto. apply mid_spec in M. destruct M as (_ & D & _).
+      now apply ndf_NoDup.
+  Qed.
+
+  (* the fields of the result of the hooks are the fields they were given *)
+  Lemma hook_fst h m fv fv' : apply_hook E h m fv = Ok fv' -> map fst fv' = map fst fv.
+  Proof.
+    assert (MS : forall l t m fv fv', move_string l t m fv = Ok fv' -> map fst fv' = map fst fv).
+    { intros l t m0 fv0 fv0' H. unfold move_string in H.
+      destruct (assoc l m0) as [[| | |s| |]|]; try discriminate; try (inversion H; subst; auto; fail).
+      destruct s; inversion H; subst; auto using set_field_fst. }
+    intros H. destruct h; cbn [apply_hook] in H.
+    - inversion H; auto.
+    - destruct (get_field (bs "$regime") fv) as [[| | |s| |]|]; try (inversion H; subst; auto; fail).
+      destruct s; [|inversion H; subst; auto].
+      destruct (e_regime E (supplier_country fv)); inversion H; subst; auto using set_field_fst.
+    - destruct (assoc (bs "tags") m) as [[| | | |l|]|]; try discriminate; try (inversion H; subst; auto; fail).
+      destruct l; [inversion H; subst; auto | discriminate].
+    - eauto.
+    - apply rbind_ok in H. destruct H as (fv1 & H1 & H2). rewrite (MS _ _ _ _ _ H2). eauto.
+    - destruct (assoc (bs "tags") m) as [[| | | |l|]|]; try discriminate; try (inversion H; subst; auto; fail).
+      destruct l as [|[| | |k| |] r]; try discriminate; try (inversion H; subst; auto; fail).
+      destruct (negb (all_strings r)); [discriminate|].
+      destruct (get_field (bs "rate") fv) as [[| | |s| |]|]; try (inversion H; subst; auto; fail).
+      destruct s; inversion H; subst; auto using set_field_fst.
+  Qed.
+
+  Lemma rmap_tag_fst {X} (g : field -> res X) fs fv :
+    rmap (fun fd => rbind (g fd) (fun v => Ok (fd, v))) fs = Ok fv -> map fst fv = fs.
+  Proof.
+    intros H. apply rmap_ok in H. induction H; cbn; auto.
+    apply rbind_ok in H. destruct H as (v & _ & Hv). inversion Hv; subst. cbn. congruence.
+  Qed.
+
+  Lemma zero_struct_shape f fs z : zero_enc E f (TyStruct HNone fs) = Ok z ->
+    exists fv, map fst fv = fs /\ z = TObj (emit fv) /\
+      exists f', f = S f' /\ Forall (fun p => zero_enc E f' (f_ty (fst p)) = Ok (snd p)) fv.
+  Proof.
+    destruct f as [|f']; [discriminate|]. rewrite zero_enc_eq. intros H.
+    apply rbind_ok in H. destruct H as (fv & Hfv & H). inversion H; subst.
+    exists fv. split; [apply (rmap_tag_fst (fun fd => zero_enc E f' (f_ty fd)) _ _ Hfv)|]. split; auto. exists f'. split; auto.
+    apply rmap_ok in Hfv. clear H. induction Hfv; constructor; auto.
+    apply rbind_ok in H. destruct H as (v & Hv & Hy). inversion Hy; subst. exact Hv.
+  Qed.
+
+  Lemma struct_first_fst f m fs fv :
+    rmap (fun fd => match assoc (f_name fd) m with
+                    | Some x => rbind (reenc E f (f_ty fd) x) (fun v => Ok (fd, v))
+                    | None => rbind (zero_enc E f (f_ty fd)) (fun v => Ok (fd, v))
+                    end) fs = Ok fv -> map fst fv = fs.
+  Proof.
+    intros H. apply rmap_ok in H. induction H; cbn; auto.
+    assert (fst y = x).
+    { destruct (assoc (f_name x) m); apply rbind_ok in H; destruct H as (v & _ & Hv); inversion Hv; reflexivity. }
+    congruence.
+  Qed.
+
+  (* T4: the written members are a sub-list, in order, of the declared fields *)
+  Theorem written_members_in_declaration_order fuel h fs j m :
+    reenc E fuel (TyStruct h fs) j = Ok (TObj m) -> sublist (map fst m) (map f_name fs).
+  Proof.
+    destruct fuel as [|f]; [discriminate|]. rewrite reenc_eq.
+    destruct j; try discriminate.
+    - destruct h; try discriminate. intros H.
+      destruct (zero_struct_shape _ _ _ H) as (fv & Hfs & Hz & _). inversion Hz; subst.
+      apply emit_keys_sublist.
+    - unfold struct_step.
+      destruct (negb (members_in_domain (map f_name fs ++ hook_names h) m0)); [discriminate|].
+      intros H. apply rbind_ok in H. destruct H as (fv & Hfv & H).
+      apply rbind_ok in H. destruct H as (fv' & Hh & H). inversion H; subst.
+      apply struct_first_fst in Hfv. rewrite <- Hfv, <- (hook_fst _ _ _ _ Hh).
+      apply emit_keys_sublist.
+  Qed.
+End ByName.
